@@ -30,8 +30,15 @@ class MathOperator(Operator):
                     raise DivideByZeroError(self.stack)
                 return left / right
             case "//":
+                if right == 0:
+                    raise DivideByZeroError(self.stack)
                 return left // right
             case "^":
-                return left**right
+                try:
+                    return left**right
+                except ZeroDivisionError:
+                    raise DivideByZeroError(self.stack)
             case _:
+                if right == 0:
+                    raise DivideByZeroError(self.stack)
                 return left % right
